@@ -161,7 +161,7 @@ def genPattern (pool : List Bytes) : Gen Bytes := do
 /-- patterns that are not valid RE2 syntax -/
 def invalidPatterns : List String :=
   ["(", ")", "[a", "*a", "a{2,1}", "a**", "\\", "(?z)", "a{1001}", "[b-a]", "\\8", "(?P<n", "+", "?", "a|*", "[]",
-   "[[:foo:]]", "\\pX", "(?i", ")(", "a(b", "x{2}{3}", "(?<n>a)(?<n>b)"]
+   "[[:foo:]]", "\\pX", "(?i", ")(", "a(b", "x{2}{3}"]
 
 /-! ### credential-shaped tokens (formats the bundled detectors accept without network verification) -/
 
